@@ -159,6 +159,8 @@ def _spell(root: str, spelling: str, tmp: str) -> Any:
         return os.path.join('zz', '..', root)
     if spelling == 'abs':
         return os.path.join(tmp, root)
+    if spelling == 'dslash':
+        return '/' + os.path.join(tmp, root)    # '//tmp/x' names the same file as '/tmp/x'
     if spelling == 'path':
         return pathlib.Path(root)
     if spelling == 'abspath':
@@ -193,7 +195,7 @@ def _run(case: dict, res: Result, tmp: str) -> Result:
     root = case['root']
     spelling = case.get('spelling', 'bare')
     arg = _spell(root, spelling, tmp)
-    absolute = spelling in ('abs', 'abspath')
+    absolute = spelling in ('abs', 'abspath', 'dslash')
     classes.add('spelling:' + ('abs' if absolute else spelling))
     before = {n: (open(os.path.join(tmp, n), 'rb').read(), os.stat(os.path.join(tmp, n)).st_mtime_ns, os.stat(os.path.join(tmp, n)).st_ino)
               for n in files}
@@ -210,6 +212,8 @@ def _run(case: dict, res: Result, tmp: str) -> Result:
     any_cr = False
 
     def key_of(name: str) -> str:
+        if spelling == 'dslash':
+            return os.path.normpath('/' + os.path.join(tmp, name))
         return os.path.normpath(os.path.join(tmp, name)) if absolute else os.path.normpath(name)
 
     class Boom(Exception):
@@ -233,21 +237,21 @@ def _run(case: dict, res: Result, tmp: str) -> Result:
             with ed.edit_file_recursive(arg) as fs:
                 keys = set(fs.keys())
                 exp_keys = {key_of(n) for n in reach}
-                mixed = any(i.startswith('{ABS}/') for n in reach for i in files[n]['includes']) and not absolute
+                mixed = any(i.startswith('{ABS}/') for n in reach for i in files[n]['includes']) and (not absolute or spelling == 'dslash')
                 if mixed:
                     # relative root and absolute includes: a file may be keyed by either spelling, but each file appears once
                     classes.add('mixed-spellings')
                     by_abs: dict[str, str] = {}
                     for k in keys:
-                        a = os.path.abspath(k)
+                        a = os.path.realpath(k)
                         if a in by_abs:
                             res.bad('visited-twice', f'the same file is in the mapping under two spellings: {by_abs[a]!r} and {k!r} (root {arg!r}, keys {sorted(keys)})')
                             return res
                         by_abs[a] = k
-                    if set(by_abs) != {os.path.abspath(n) for n in reach}:
+                    if set(by_abs) != {os.path.realpath(n) for n in reach}:
                         res.bad('keys', f'mapping keys {sorted(keys)} but the graph reaches {sorted(reach)} (root {arg!r})')
                         return res
-                    key_of = lambda name: by_abs.get(os.path.abspath(name), os.path.normpath(name))  # noqa: E731
+                    key_of = lambda name: by_abs.get(os.path.realpath(name), os.path.normpath(name))  # noqa: E731
                 elif keys != exp_keys:
                     res.bad('keys', f'mapping keys {sorted(keys)} but the graph reaches {sorted(exp_keys)} (root {arg!r})')
                     return res
@@ -423,7 +427,7 @@ def _build(tier: str):
                 e['text'] = '2000-01-01 open Assets:Added\n' if g.p(0.5) else '2000-01-01 open Assets:Added\r\n; c\r\n'
             edits.append(e)
         return {'files': files, 'root': root, 'mode': 'single' if single else 'recursive', 'cycle': cycle,
-                'spelling': g.pick(['bare', 'bare', 'dot', 'redundant', 'abs', 'path', 'abspath']), 'edits': edits, 'raise': g.p(0.2),
+                'spelling': g.pick(['bare', 'bare', 'dot', 'redundant', 'abs', 'path', 'abspath', 'dslash']), 'edits': edits, 'raise': g.p(0.2),
                 'top': g.pick(['y[1]', 'Finance [2020]', 'a*b', 'q?', '[x]']) if g.p(0.3) else ''}
     return build
 
